@@ -444,6 +444,7 @@ def build(tier, seed):
                 Rows("rows-d2", [["v5x5", None, M], ["v4x4p%d" % (seed + 1), None, ["mc", 0.12, 0.05]]], 2, []),
                 est,
                 Solutions("v5x4", ["id", "rev", "rot"]),
+                Solutions("v5x5", ["id", "rev"]),
                 ListSystem("physics", phys, eval_physics)]
     phys = [{"base": b, "mob": m, "k": k} for b in ("v5x5", "v6x5", "v6x6", "v7x6") for m in (M, ["mc", 0.12, 0.05], ["m", 0.01, 0.0], ["id"]) for k in (3, 4, 5, 8, 15)]
     return [Rows("rows-orientations-all", [["v5x5", None, M]], 1, ["orient_all"]),
